@@ -46,7 +46,18 @@ def cleanup_leaves(env, version=None):
             return r
         I = Interp(prog, run, mods, stubs={eo_key: emit_opcode_stub})
         one.last = (I, h, steps)
-        I.call(key, [h.ref()])
+        args = [h.ref()]
+        body = prog.bodies[key]
+        for i in range(2, body["arg_count"] + 1):
+            ty = str(body["locals"][i].get("ty", ""))
+            if "GenerationSource" in ty:
+                # the collapse phase was handed the entropy source: whatever it draws and emits is part of the analysis
+                src = G.AbsSource(prog)
+                h.src = src
+                args.append(Ref(Box_(src, "source"), ()))
+            else:
+                raise Unanalysable("cleanup_for_stop takes a parameter of type %s: no abstract argument for it" % ty)
+        I.call(key, args)
         return (I, h, steps)
     for run, res, pe in explore(one):
         I, h, steps = res if res is not None else one.last
@@ -106,11 +117,32 @@ class ValidOps:
 
 
 class Chosen:
+    """the opcode weighted_choice picked from a ValidOps list: unknown, except for what the code asks about it"""
+
     def __init__(self, src):
         self.src = src
+        self.asked = []
 
     def __repr__(self):
         return "Chosen(valid#%d)" % self.src.n
+
+    def discriminant(self, I):
+        return self
+
+    def on_switch(self, I, targets, otherwise):
+        # `match chosen { A | B => .., _ => .. }`: one fork per distinct successor block, not per opcode
+        blocks = []
+        for val, bb in targets:
+            if bb not in blocks:
+                blocks.append(bb)
+        if otherwise not in blocks:
+            blocks.append(otherwise)
+        c = I.run.choose(len(blocks), "chosen opcode class")
+        self.asked.append((tuple(v for v, bb in targets if bb == blocks[c]), blocks[c] == otherwise))
+        return blocks[c]
+
+    def cast_to(self, I, from_ty, to_ty):
+        return self
 
 
 def generate_internal_leaves(env, version, max_loop=2):
